@@ -8,6 +8,8 @@
                                  Update/RemoveWebhook, findMatchingHooks/BroadcastEvent
      host/settings/settings.go   NewConfigManager (settings <- Store.Settings), UpdateSettings
      host/accounts/accounts.go   NewManager (empty balance map), Credit, Budget; budget.go
+     host/contracts/accounts.go  CreditAccountsWithContract, DebitAccount (RHP4: store only;
+                                 persist/sqlite/accounts.go RHP4CreditAccounts, RHP4DebitAccount)
      host/storage/storage.go     NewVolumeManager/loadVolumes (a volume whose data file does not
                                  open is flagged unavailable in the store and kept with status
                                  "unavailable"; one that opens is flagged available and "ready"),
@@ -208,7 +210,13 @@ Inductive op :=
 | Restart
   (* an operation of any kind that returned an error (a store call that failed after the
      manager's own validation passed: unknown sector root, duplicate id, database error) *)
-| Failed.
+| Failed
+  (* RHP4: contracts.Manager.CreditAccountsWithContract / DebitAccount go straight to the store
+     (Store.RHP4CreditAccounts / RHP4DebitAccount); the account manager is not involved.  An
+     rhp3.Account and a proto4.Account with the same public key are the same row of the
+     accounts table: [a] ranges over the same keys as in Credit / OpenBudget *)
+| Credit4 (a amt : N)
+| Debit4 (a amt : N).
 
 Inductive obs :=
 | ODone (ok : bool)
@@ -404,6 +412,12 @@ Definition step (s : state) (o : op) : state * obs :=
   | Observe => (s, observe s)
   | Restart => (restart s, ODone true)
   | Failed => (s, ODone false)
+  | Credit4 a amt =>
+      (mk (set_db_bal d (aset a (bal_of (d_bal d) a + amt)%N (d_bal d))) m bs g, ODone true)
+  | Debit4 a amt =>
+      (* no row, or less than the cost: ErrNotEnoughFunds *)
+      if (bal_of (d_bal d) a <? amt)%N then (s, ODone false)
+      else (mk (set_db_bal d (aset a (bal_of (d_bal d) a - amt)%N (d_bal d))) m bs g, ODone true)
   end.
 
 (** * Vocabulary of the theorems *)
@@ -453,6 +467,14 @@ Definition runs (s : state) (l : list op) : state := fold_left (fun s o => fst (
 (* every scope-tree node belongs to a stored hook that lists it, exactly once *)
 Definition tree_inv (t : list (path * N)) (hs : list (N * hook)) : Prop :=
   NoDup t /\ forall p id, In (p, id) t <-> exists h, alookup id hs = Some h /\ In p (h_scopes h).
+
+(* the open budgets of account [a] *)
+Definition budgets_on (bs : list (N * (N * N))) (a : N) : nat :=
+  List.length (filter (fun e => (fst (snd e) =? a)%N) bs).
+
+(* AccountManager.balances has an entry for the account *)
+Definition cached (s : state) (a : N) : bool :=
+  match alookup a (m_bal (mem s)) with Some _ => true | None => false end.
 
 Definition open_count (m : list (N * (N * N))) : nat :=
   fold_right (fun e acc => (N.to_nat (snd (snd e)) + acc)%nat) O m.
@@ -515,6 +537,39 @@ Definition obs_eqb (a b : obs) : bool :=
 
 Definition case := (N * list (op * obs))%type.
 Definition check (cs : list case) := mismatches init step obs_eqb cs.
+
+(** * Seeded change C18-mut8: Budget.Commit drops the entry only when openTxns < 0 *)
+Module Legacy.
+  (* openTxns--; the entry stays (openTxns can not get below 0 here) with the remainder added back *)
+  Definition commit_close (m : list (N * (N * N))) (a back : N) : res (list (N * (N * N))) :=
+    match alookup a m with
+    | None => Panic
+    | Some (b, n) => Ok (aset a ((b + back)%N, (n - 1)%N) m)
+    end.
+
+  Definition step (s : state) (o : op) : state * obs :=
+    let d := db s in let m := mem s in let bs := budgets s in let g := gone s in
+    match o with
+    | CommitBudget b spend =>
+        match alookup b bs with
+        | None => (s, ODone false)
+        | Some (a, mx) =>
+            if (bal_of (d_bal d) a <? spend)%N then
+              match close_budget (m_bal m) a mx with      (* Rollback is unchanged *)
+              | Ok mb => (mk d (set_m_bal m mb) (aremove b bs) g, ODone false)
+              | _ => (s, OPanic)
+              end
+            else
+              match commit_close (m_bal m) a (mx - spend)%N with
+              | Ok mb => (mk (set_db_bal d (aset a (bal_of (d_bal d) a - spend)%N (d_bal d))) (set_m_bal m mb) (aremove b bs) g, ODone true)
+              | _ => (s, OPanic)
+              end
+        end
+    | _ => Model.step s o
+    end.
+
+  Definition runs (s : state) (l : list op) : state := fold_left (fun s o => fst (step s o)) l s.
+End Legacy.
 
 (** * Opening the store (persist/sqlite/init.go) *)
 Section Open.
